@@ -9,7 +9,8 @@ D1 scaling by t > 0: (m, v) -> (t m, t^2 v) maps every bound b to t*b.  With eve
    scaling is a shift in log space (D3); harmonic: a scaling by 1/t in reciprocal space.
 D2 negation: m -> -m maps lo -> -hi, hi -> -lo and exchanges upper/lower (IEEE negation exact).
 D3 shift by a: m -> m + a maps every bound b to b + a (variance term invariant).
-D4 reordering: the state is a function of the multiset in real mode (C09-D1/C01-D1 folds).
+D4 reordering: the state is a function of the multiset in real mode: the fold / routing obligations of the
+   feeders (C01 front-ends, C04 paired / unpaired feeders) are re-established and reported here.
 U: size of the rounding differences for shift / reorder (runtime quantities)."""
 from fractions import Fraction
 
@@ -94,7 +95,27 @@ def run_cfg(chk, facts, cfg):
     # geometric / harmonic by composition (C05): scaling x -> t x is ln x -> ln x + ln t (shift in log
     # space, D3 of the wrapped arithmetic producer) resp. 1/x -> (1/t)(1/x) (scaling in reciprocal space, D1)
     chk.notes.append('geometric / harmonic scale up to rounding by composition of C05-D2/D3 with the shift / scaling identities of the wrapped arithmetic producer')
-    chk.notes.append('reordering: the accumulated state is a function of the multiset over the reals (fold obligations of C01/C04, merge obligations of C09)')
+    # D4 reordering: every feeder is a fold that takes each element of each sample exactly once and adds a function
+    # of that element alone to additive statistics - so the state, hence the interval, is a function of the multisets
+    # over the reals.  These are the fold / routing obligations of C01 (arithmetic front-ends) and C04 (paired and
+    # unpaired feeders), re-established here on the same facts and reported under this property.
+    n_fold = 0
+    try:
+        from .. import core as core_
+        from . import C01 as R1, C04 as R4
+        for R, sub_pid in ((R1, 'C01'), (R4, 'C04')):
+            sub = core_.Check(sub_pid, chk.tier)
+            R.run_cfg(sub, facts, cfg)
+            for o in sub.obligations:
+                if o['rule'] in ('T1-fold', 'T-fold', 'T2-lockstep') or (o['rule'] == 'E3+E4' and 'append' in o['key']):
+                    n_fold += 1
+                    chk.ob('%s:reorder:%s' % (PID, o['key'].split(':', 1)[1]), 'composition ' + o['rule'],
+                           'reordering: ' + (o.get('desc') or o['key']) + ' (each element once, additive step => function of the multiset)',
+                           None if o['status'] == 'undecided' else o['status'] == 'ok', o.get('detail') or '', o.get('where') or which)
+    except Exception as e:
+        chk.ob('%s:reorder%s' % (PID, sfx), 'composition', 'fold obligations of the feeders', None, 'undecided: %r' % (e,), 'feeders')
+    if cfg == 'default':
+        chk.floor('feeder-folds', n_fold, 20)
     chk.analysed['paths'] += pr.npaths
     chk.analysed['functions'] |= pr.fns
     chk.analysed['configs'].add(cfg)
